@@ -46,6 +46,7 @@ type ctlDS struct {
 	onAttempt func() int
 	attempts  []attempt
 	onBlock   func(key string, val []byte, local bool)
+	onHeadPut func(key string, local bool)
 	writes  int
 	lastW   time.Time
 	inPub   bool // a publish has started writing and has not reached its heads write (or failed)
@@ -164,6 +165,9 @@ func (d *ctlDS) Put(k ds.Key, v []byte) error {
 		return err
 	}
 	defer d.after(cl)
+	if d.onHeadPut != nil && d.classify([]string{k.String()}) == clHeads {
+		d.onHeadPut(k.String(), isLocalPublish())
+	}
 	return d.Datastore.Put(k, v)
 }
 
@@ -180,6 +184,7 @@ type ctlBatch struct {
 	ds.Batch
 	d    *ctlDS
 	keys []string
+	puts []string
 }
 
 func (b *ctlBatch) Put(k ds.Key, v []byte) error {
@@ -187,6 +192,7 @@ func (b *ctlBatch) Put(k ds.Key, v []byte) error {
 		b.d.onBlock(k.String(), v, isLocalPublish())
 	}
 	b.keys = append(b.keys, k.String())
+	b.puts = append(b.puts, k.String())
 	return b.Batch.Put(k, v)
 }
 func (b *ctlBatch) Delete(k ds.Key) error {
@@ -199,6 +205,12 @@ func (b *ctlBatch) Commit() error {
 		return err
 	}
 	defer b.d.after(cl)
+	if b.d.onHeadPut != nil && b.d.classify(b.keys) == clHeads {
+		local := isLocalPublish()
+		for _, k := range b.puts {
+			b.d.onHeadPut(k, local)
+		}
+	}
 	return b.Batch.Commit()
 }
 
@@ -249,6 +261,13 @@ func (d *ctlDS) takeAttempts() []attempt {
 	a := d.attempts
 	d.attempts = nil
 	return a
+}
+
+// attemptsCount: publish attempts started so far (only counted while nobody calls takeAttempts)
+func (d *ctlDS) attemptsCount() int {
+	d.mu.Lock()
+	defer d.mu.Unlock()
+	return len(d.attempts)
 }
 
 func (d *ctlDS) remoteHeadWrites() int {
